@@ -25,6 +25,24 @@ CHECKS = {
         "Trusted: refmodel::layout_type as restatement of the property (effective alignment without #[align] taken from the source's documented default rule).",
         "DESIGN.md §6 C03",
     ),
+    "C14": (
+        "directory-level output monitor: pyxis::build on generated trees, listing + syn item multiset + prologue/epilogue token comparison; collision inputs; registry hook events",
+        "Writes hundreds (quick) to thousands (thorough) of generated multi-module trees (nested directories, empty modules, rust and foreign backend blocks) to real directories, runs pyxis::build and compares the output directory listing and each file's top-level items with the declarations; five kinds of colliding declarations must be rejected (hook event RegistryAdd{replaced: different} records a silent overwrite). Exploration.",
+        "Trusted: syn as reader of emitted text; the reference list of expected items (types, enums, one <T>Vftable per vftable block, one get_<name> per extern value).",
+        "DESIGN.md §6 C14",
+    ),
+    "C16": (
+        "emitted-text monitor of ABI strings (syn) over generated programs + exhaustive convention x receiver x depth product + i686-pc-windows-msvc acceptance by nightly rustc",
+        "Reads the ABI string of every emitted vftable slot type and address-bound wrapper fn-pointer for generated accepted programs and for the complete product of conventions, receivers, chain depths and widths, and compares with the declared or default convention; misspelt names must be rejected; the un-normalised struct definitions are compiled by nightly rustc for i686-pc-windows-msvc where all seven conventions are real. Exhaustive for the product, sampled beyond.",
+        "Trusted: syn; reference default rule (thiscall with receiver, system without, placeholders thiscall); nightly rustc's ABI validation.",
+        "DESIGN.md §6 C16",
+    ),
+    "C17": (
+        "emitted-text monitor (syn) of visibility, derives, repr and doc attributes over generated programs + exhaustive 2^14 visibility/marker product",
+        "For generated accepted programs and the complete 2^14 product of visibility and marker bits, every emitted item's visibility, derive set, packed/align repr and doc attribute lines are compared with the source item they were written on, including vftable slots and inherited/forwarded copies; generated items must be private and undocumented. Exploration (exhaustive for the product in thorough).",
+        "Trusted: syn; the reference method-set model (refprog::associated) for which copies a derived type carries.",
+        "DESIGN.md §6 C17",
+    ),
     "C18": (
         "generated-AST print/parse round-trip monitor + rejection monitor on deliberately broken texts",
         "Runs the real parser on tens of thousands (quick) to millions (thorough) of texts printed from randomly generated abstract modules covering the whole grammar, with randomised legal spellings, and compares the returned value with the generating AST; broken texts must be rejected with an in-range position. Exploration, not proof: holds on the executions observed.",
